@@ -71,6 +71,7 @@ type bundleOpts struct {
 	extraValue      func(g *bundleGen, t ty) (interface{}, bool)            // consulted first by valueOf()
 	allParams       bool                                                    // dataFor supplies optional params too
 	ij         bool // expressions may read $ij.n / $ij.s (interpreter checks)
+	defaultAnywhere bool // a {switch}'s {default} may stand before (between) its {case}s
 }
 
 func typeOfName(n string) ty {
@@ -401,6 +402,7 @@ func (g *bundleGen) cmd(s *gScope, depth int) string {
 		t := []ty{tInt, tStr}[r.Intn(2)]
 		out := "{switch " + g.expr(s, 1, t) + "}"
 		nc := 1 + r.Intn(3)
+		var cases []string
 		for i := 0; i < nc; i++ {
 			vals := (&scopedExprGen{g, s}).lit(t)
 			if r.Intn(3) == 0 {
@@ -411,12 +413,20 @@ func (g *bundleGen) cmd(s *gScope, depth int) string {
 				vals += ", " + g.expr(s, 1, t)
 				g.stat("case-value-expr")
 			}
-			out += "\n{case " + vals + "}" + g.block(s, depth-1)
+			cases = append(cases, "\n{case "+vals+"}"+g.block(s, depth-1))
 		}
 		if r.Bool() {
-			out += "{default}" + g.block(s, depth-1)
+			d := "{default}" + g.block(s, depth-1)
+			at := len(cases)
+			if g.opts.defaultAnywhere {
+				at = r.Intn(len(cases) + 1)
+				if at < len(cases) {
+					g.stat("switch-default-not-last")
+				}
+			}
+			cases = append(cases[:at], append([]string{d}, cases[at:]...)...)
 		}
-		return out + "{/switch}"
+		return out + strings.Join(cases, "") + "{/switch}"
 	case choice == 11 || choice == 12:
 		g.stat("foreach")
 		list := g.expr(s, 1, tList)
